@@ -32,7 +32,7 @@ extern "C" {
 fn main() {
     // per-case watchdog: a case that does not come back (a loop of the code under test that never terminates) gets
     // SIGALRM (default action: the process dies with signal 14); the runner records it for that case and restarts
-    let watchdog: u32 = std::env::var("CFH_WATCHDOG").ok().and_then(|s| s.parse().ok()).unwrap_or(20);
+    let watchdog: u32 = std::env::var("CFH_WATCHDOG").ok().and_then(|s| s.parse().ok()).unwrap_or(5);
     let args: Vec<String> = std::env::args().collect();
     let mode = args.get(1).map(|s| s.as_str()).unwrap_or("");
     let stdin = io::stdin();
